@@ -6,6 +6,7 @@ package main
 import (
 	"context"
 	"fmt"
+	"io"
 	"math"
 	"sort"
 	"strings"
@@ -131,6 +132,7 @@ func Canon(r *promql.Result, c *Case) Result {
 type EngOpts struct {
 	DisableFallback bool
 	Reg             prometheus.Registerer
+	Debug           bool // Opts.DebugWriter set: the plan is explained at query creation
 }
 
 func NewThanos(c *Case, eo EngOpts) interface {
@@ -148,7 +150,15 @@ func NewThanos(c *Case, eo EngOpts) interface {
 		},
 		LogicalOptimizers: c.Optimizers(),
 		DisableFallback:   eo.DisableFallback,
+		DebugWriter:       debugWriter(eo.Debug),
 	})
+}
+
+func debugWriter(on bool) io.Writer {
+	if on {
+		return io.Discard
+	}
+	return nil
 }
 
 func NewProm(c *Case) *promql.Engine {
